@@ -555,7 +555,8 @@ _MISSING = object()
 
 
 class RunResult:
-    __slots__ = ('status', 'value', 'exc', 'sched', 'drain_steps', 'seq_at_return', 'harness_error', 'at_return')
+    __slots__ = ('status', 'value', 'exc', 'sched', 'drain_steps', 'seq_at_return', 'harness_error', 'at_return',
+                 'seq_at_abort')
 
 
 def run_sim(fn, fs, chooser, step_cap=5000, mem_total=64 << 30, cpu_count=4, queue_cap=None, drain=True,
@@ -570,6 +571,11 @@ def run_sim(fn, fs, chooser, step_cap=5000, mem_total=64 << 30, cpu_count=4, que
     with SimEnv(fs, mem_total=mem_total, cpu_count=cpu_count):
         sched = core.begin(chooser, step_cap)
         r.sched = sched
+        r.seq_at_abort = None
+
+        def _mark_abort():
+            r.seq_at_abort = fs.seq
+        sched.on_abort = _mark_abort
         if preempt is not None:
             # preempt = (probability per library source line, key of the PRNG streams)
             sched.enable_preemption(preempt[0], preempt[1], os.path.join(REPO, 'seismic_zfp') + os.sep,
